@@ -224,7 +224,10 @@ class Evaluator:
                 locs[p] = atom(("undef", p))
         extra = pos[len(params_b):]
         if a.vararg:
-            locs[a.vararg.arg] = atom(("tuple", tuple(extra)))
+            if entry and not pos:
+                locs[a.vararg.arg] = atom(("param", a.vararg.arg))
+            else:
+                locs[a.vararg.arg] = atom(("tuple", tuple(extra)))
         for i, p in enumerate(a.kwonlyargs):
             if p.arg in kw:
                 locs[p.arg] = kw.pop(p.arg)
